@@ -90,7 +90,7 @@ Qed.
 
 Definition valid_opt (o : copt) : Prop := valid_view m (o_name o).
 
-Lemma try_apply_safe arg idx o : good arg -> valid_opt o -> safeT (try_apply m arg idx o) (fun _ => True).
+Lemma try_apply_safe arg idx o : good arg -> valid_opt o -> safeT (try_apply m sub_string arg idx o) (fun _ => True).
 Proof.
   intros Hg Ho. unfold try_apply.
   eapply safeT_bind; [apply ff_safe; exact Hg|]. intros eq _. cbv beta.
@@ -107,7 +107,7 @@ Proof.
     eapply safeT_bind; [apply safeT_emit; exact Hval|]. intros _ _. apply safeT_ret; trivial.
 Qed.
 
-Lemma try_all_safe arg idx opts : good arg -> Forall valid_opt opts -> safeT (try_all m arg idx opts) (fun _ => True).
+Lemma try_all_safe arg idx opts : good arg -> Forall valid_opt opts -> safeT (try_all m sub_string arg idx opts) (fun _ => True).
 Proof.
   intros Hg Ho. revert idx; induction Ho as [|o opts Hv Ho IH]; intros idx; cbn [try_all].
   - apply safeT_ret; trivial.
@@ -120,7 +120,7 @@ Proof. unfold add64. apply N.mod_lt. discriminate. Qed.
 
 (* the tokeniser: whatever it computes, spc is a size_t *)
 Lemma tokenise_safe cl : good cl -> vlen cl < W64 ->
-  safeT (tokenise m cl) (fun tk => let '(_, _, _, spc) := tk in spc < W64).
+  safeT (tokenise m sub_string cl) (fun tk => let '(_, _, _, spc) := tk in spc < W64).
 Proof.
   intros Hg Hl. unfold tokenise.
   eapply safeT_bind; [apply ff_safe; exact Hg|]. intros spc Hspc. cbv beta.
@@ -135,7 +135,7 @@ Proof.
 Qed.
 
 Lemma parse_loop_safe opts fuel cl : Forall valid_opt opts -> good cl -> vlen cl < W64 -> vlen cl < N.of_nat fuel ->
-  safeT (parse_loop m opts fuel cl) (fun _ => True).
+  safeT (parse_loop m sub_string opts fuel cl) (fun _ => True).
 Proof.
   intros Ho. revert cl; induction fuel as [|f IH]; intros cl Hg Hl Hf; [lia|]. cbn [parse_loop].
   eapply safeT_bind; [apply tokenise_safe; assumption|]. intros [[[quoted oq] cq] spc] Hspc. cbv beta iota.
@@ -149,7 +149,7 @@ Proof.
 Qed.
 
 Lemma parse_arguments_safe cl opts : cl = cl0 -> valid_view m cl -> vlen cl < W64 -> Forall valid_opt opts ->
-  safeT (parse_arguments m cl opts) (fun _ => True).
+  safeT (parse_arguments m sub_string cl opts) (fun _ => True).
 Proof.
   intros -> Hv Hl Ho. unfold parse_arguments, parse_fuel.
   apply parse_loop_safe; [assumption|split; [assumption|apply inside_refl]|assumption|lia].
@@ -190,7 +190,7 @@ Lemma run_cmdline_safe (tbl : list (list byte * bool)) (cl : list byte) (null_cl
   | (OutOfFuel, _) => False
   end.
 Proof.
-  intros Hl. unfold run_cmdline.
+  intros Hl. unfold run_cmdline, run_cmdline_with.
   assert (Hv : valid_view (run_mem tbl cl) (cl_view cl null_cl)).
   { destruct null_cl; simpl; [trivial|]. exists cl. split; [reflexivity|lia]. }
   assert (Hlen : vlen (cl_view cl null_cl) < W64).
@@ -198,7 +198,7 @@ Proof.
   pose proof (parse_arguments_safe (run_mem tbl cl) (cl_view cl null_cl) (cl_view cl null_cl) (opt_table tbl 1)
                 eq_refl Hv Hlen (opt_table_valid tbl cl)) as S.
   unfold cl_view in *. unfold safeT in S.
-  destruct (parse_arguments (run_mem tbl cl) (if null_cl then VNull else V 0 0 (N.of_nat (length cl))) (opt_table tbl 1))
+  destruct (parse_arguments (run_mem tbl cl) sub_string (if null_cl then VNull else V 0 0 (N.of_nat (length cl))) (opt_table tbl 1))
     as [[a|w|w|] items]; try tauto.
   - destruct S as [_ S]. eapply Forall_impl; [|exact S]. intros [r|idx v]; simpl; [trivial|].
     intros [_ Hi]. destruct v as [|b off len]; [left; reflexivity|right].
@@ -211,10 +211,16 @@ Qed.
 (* general form with the fuel spelled out: any valid view of any memory, any table of valid option names *)
 Lemma parse_loop_total_safe (m : mem) (cl : view) (opts : list copt) :
   valid_view m cl -> vlen cl < W64 -> Forall (valid_opt m) opts ->
-  safeT m cl (parse_loop m opts (S (N.to_nat (vlen cl))) cl) (fun _ => True).
+  safeT m cl (parse_loop m sub_string opts (S (N.to_nat (vlen cl))) cl) (fun _ => True).
 Proof. intros Hv Hl Ho. apply (parse_arguments_safe m cl cl opts eq_refl Hv Hl Ho). Qed.
 
 (* the assertion stop is real: an unbalanced quote ends in the hook (and nowhere else) *)
 Definition d32_cl : list byte := [34; 97; 98; 99].     (* a quote, then abc: the opening quote only *)
 Lemma unbalanced_quote_stops : fst (run_cmdline [([97], true)] d32_cl false) = AssertStop a_sub_string.
 Proof. vm_compute. reflexivity. Qed.
+
+(* D32, the code before the repair: with the wrapping bound check from + size <= _length (mod 2^64) the same
+   unbalanced quote reads outside the 4-byte buffer *)
+Lemma parse_wrapping_check_refuted :
+  fst (run_cmdline_with (sub_string_with chk_wrapping) [([97], true)] d32_cl false) = UB oob.
+Proof. lazy. reflexivity. Qed.
